@@ -169,6 +169,21 @@ func (c *Client) Closed() (bool, error) {
 	return c.closed, c.closeErr
 }
 
+// WaitClosed waits up to d for the reader to notice that the connection is closed (a failed
+// Send is often the first sign of a connection the server has just dropped).
+func (c *Client) WaitClosed(d time.Duration) bool {
+	deadline := time.Now().Add(d)
+	for {
+		if closed, _ := c.Closed(); closed {
+			return true
+		}
+		if !time.Now().Before(deadline) {
+			return false
+		}
+		time.Sleep(5 * time.Millisecond)
+	}
+}
+
 // WaitFor blocks until a message satisfying pred has been received (searching from the
 // start of the log), the connection closes, or the watchdog fires.
 func (c *Client) WaitFor(pred func(Msg) bool, timeout time.Duration) (Msg, bool) {
